@@ -34,7 +34,7 @@ RULE = ('plan = 2-6 objects (seven stored types; values empty/1 byte/'
         'client of a seeded version. Non-trivial: an object with >= 2 '
         'optional fields was read back after >= 1 restart. Distinct = '
         'trace digest.')
-PROBES = ['destroy_of_a_stored_object', 'wrapped_get_then_commit', 'proxy_register_with_template', 'group_changed_on_one_object',
+PROBES = ['key_pair_with_overlapping_templates', 'destroy_of_a_stored_object', 'wrapped_get_then_commit', 'proxy_register_with_template', 'group_changed_on_one_object',
           'restart', 'kill_restart', 'wrapped_key_roundtrip',
           'split_key_roundtrip', 'non_ascii_name', 'empty_mask',
           'full_mask', 'large_value', 'server_generated', 'read_under_2_0',
@@ -242,6 +242,13 @@ def generate(rng, tier, index):
                 st = {'do': 'create_key_pair', 'label': lab,
                       'ver': list(ver), 'len': 1024,
                       'masks': [1], 'pub_masks': [2]}
+                if r.random() < 0.5 and ver < (2, 0):
+                    st = {'do': 'proxy_create_key_pair', 'label': lab,
+                          'ver': list(ver), 'len': 1024,
+                          'masks': r.choice([[1], [8], [1, 8]]),
+                          'pub_masks': r.choice([[2], [4], [2, 4]]),
+                          'common_masks': r.choice([None, [1, 2],
+                                                    [4, 8], [0x80]])}
                 labels.append(lab + '.pub')
             else:
                 st = {'do': 'derive', 'label': lab, 'ver': list(
@@ -701,6 +708,55 @@ def execute(plan):
                             'names': [], 'proj': None, 'generated': True,
                             'stored_since_restart': restarts_seen}
                     probes['server_generated'] += 1
+                elif do == 'proxy_create_key_pair':
+                    # KMIPProxy.create_key_pair with explicit templates in
+                    # which the common template and the key-specific ones
+                    # name the same attribute (usage mask): the specific
+                    # template is what the client asked for that key
+                    from kmip.core import objects as cobj
+                    from kmip.core.factories import attributes as caf
+                    c = cl(ver, st.get('chunks'))
+                    fac = caf.AttributeFactory()
+                    AT = enums.AttributeType
+
+                    def mask_attr(ms):
+                        return fac.create_attribute(
+                            AT.CRYPTOGRAPHIC_USAGE_MASK,
+                            [enums.CryptographicUsageMask(m) for m in ms])
+                    common = [fac.create_attribute(
+                        AT.CRYPTOGRAPHIC_ALGORITHM,
+                        enums.CryptographicAlgorithm.RSA),
+                        fac.create_attribute(AT.CRYPTOGRAPHIC_LENGTH,
+                                             st['len'])]
+                    if st.get('common_masks') is not None:
+                        common.append(mask_attr(st['common_masks']))
+                    t = int(W.clock.now)
+                    res = c.proxy.create_key_pair(
+                        common_template_attribute=cobj.TemplateAttribute(
+                            attributes=common, tag=enums.Tags.
+                            COMMON_TEMPLATE_ATTRIBUTE),
+                        private_key_template_attribute=cobj.TemplateAttribute(
+                            attributes=[mask_attr(st['masks'])],
+                            tag=enums.Tags.PRIVATE_KEY_TEMPLATE_ATTRIBUTE),
+                        public_key_template_attribute=cobj.TemplateAttribute(
+                            attributes=[mask_attr(st['pub_masks'])],
+                            tag=enums.Tags.PUBLIC_KEY_TEMPLATE_ATTRIBUTE))
+                    if res.result_status.value != enums.ResultStatus.SUCCESS:
+                        trace.append(['refused', do,
+                                      str(res.result_reason.value)])
+                        continue
+                    for lab, uid, ot, mk in (
+                            (st['label'], res.private_key_uuid,
+                             'PrivateKey', st['masks']),
+                            (st['label'] + '.pub', res.public_key_uuid,
+                             'PublicKey', st['pub_masks'])):
+                        known[lab] = {
+                            'uid': uid, 'otype': ot,
+                            'object_type': OT_NUM[ot], 'created_at': t,
+                            'alg': 4, 'len': st['len'], 'masks': mk,
+                            'names': [], 'proj': None, 'generated': True,
+                            'stored_since_restart': restarts_seen}
+                    probes['key_pair_with_overlapping_templates'] += 1
                 elif do == 'derive':
                     base = [e for e in known.values()
                             if e['otype'] == 'SymmetricKey' and
